@@ -191,6 +191,8 @@ type c29Hist struct {
 	lastCond atomic.Bool
 	ctxs     c29Ctxs
 
+	startCh  chan struct{} // closed by the controller once every worker goroutine exists
+
 	everParked []*c29Rec // controller only
 	ctlVal     int       // controller only: next value the controller puts
 	ctlErr     int
@@ -377,6 +379,7 @@ func (tg *c29GateTarget) cond(h *c29Hist) bool { return h.lastCond.Load() }
 
 func (tg *c29GateTarget) worker(h *c29Hist, client int, script []c29Step) {
 	defer h.workerExit(client)
+	<-h.startCh
 	g := tg.api
 	for _, s := range script {
 		c29Yield(s.Pre)
@@ -552,6 +555,7 @@ func (tg *c29QueueTarget) snapshot(h *c29Hist, client int) {
 
 func (tg *c29QueueTarget) worker(h *c29Hist, client int, script []c29Step) {
 	defer h.workerExit(client)
+	<-h.startCh
 	for _, s := range script {
 		c29Yield(s.Pre)
 		switch s.Kind {
@@ -733,8 +737,16 @@ func c29RunBubble(t *testing.T, h *c29Hist, tg c29Target, scripts [][]c29Step, r
 				}
 			}()
 			tg.init(h)
+			h.startCh = make(chan struct{})
+			barrier := rng.IntN(2) == 0 // all workers released together, or each runs as it is created
+			if !barrier {
+				close(h.startCh)
+			}
 			for i := range scripts {
 				go tg.worker(h, i, scripts[i])
+			}
+			if barrier {
+				close(h.startCh)
 			}
 			tg.start(h, ctl)
 			for iter := 0; ; iter++ {
@@ -788,6 +800,11 @@ func c29RunPlain(h *c29Hist, tg c29Target, scripts [][]c29Step, rng *rand.Rand) 
 	nworkers := len(scripts)
 	ctl := nworkers
 	tg.init(h)
+	h.startCh = make(chan struct{})
+	barrier := rng.IntN(2) == 0
+	if !barrier {
+		close(h.startCh)
+	}
 	var wg sync.WaitGroup
 	for i := range scripts {
 		wg.Add(1)
@@ -795,6 +812,9 @@ func c29RunPlain(h *c29Hist, tg c29Target, scripts [][]c29Step, rng *rand.Rand) 
 			defer wg.Done()
 			tg.worker(h, i, scripts[i])
 		}()
+	}
+	if barrier {
+		close(h.startCh)
 	}
 	tg.start(h, ctl)
 	plan := rng.IntN(4)
@@ -871,8 +891,13 @@ func (h *c29Hist) dump() string {
 	return sb.String()
 }
 
+// Wall-clock bound of one porcupine search. Exceeding it makes that history inconclusive
+// (never a violation).
+const c29PorcupineTimeout = 3 * time.Second
+
 type c29Stats struct {
 	mu            sync.Mutex
+	sampled       map[string]bool
 	interleavings map[uint64]struct{}
 	maxOverlap    int
 }
@@ -889,7 +914,29 @@ func (h *c29Hist) check(tg c29Target, mode string, st *c29Stats, aborted bool) {
 	for _, rec := range done {
 		ops = append(ops, porcupine.Operation{ClientId: rec.In.Client, Input: rec.In, Call: rec.Call, Output: rec.Out, Return: rec.Ret})
 	}
-	res, _ := porcupine.CheckOperationsVerbose(tg.model(), ops, 30*time.Second)
+	model := tg.model()
+	t0 := time.Now()
+	res, _ := porcupine.CheckOperationsVerbose(model, ops, c29PorcupineTimeout)
+	if ms := time.Since(t0).Milliseconds(); ms >= 100 {
+		r.Event("porcupine_checks_slower_than_100ms", 1) // diagnostic only
+	}
+	if res == porcupine.Unknown {
+		// Search gave up. A linearization is a proof by itself: try the completion order as a
+		// witness (sorted by return stamp it respects the real-time order by construction) and
+		// replay it through the same sequential model.
+		byRet := append([]*c29Rec{}, done...)
+		sort.Slice(byRet, func(i, j int) bool { return byRet[i].Ret < byRet[j].Ret })
+		state, ok := model.Init(), true
+		for _, rec := range byRet {
+			if ok, state = model.Step(state, rec.In, rec.Out); !ok {
+				break
+			}
+		}
+		if ok {
+			res = porcupine.Ok
+			r.Event("porcupine_timeouts_settled_by_completion_order_witness", 1)
+		}
+	}
 	switch res {
 	case porcupine.Ok:
 		r.Event("histories_linearizable", 1)
@@ -898,7 +945,7 @@ func (h *c29Hist) check(tg c29Target, mode string, st *c29Stats, aborted bool) {
 		r.Event("histories_not_linearizable", 1)
 	default:
 		r.Event("porcupine_unknown", 1)
-		r.Note("porcupine gave up (timeout) on a %s/%s history of %d operations: inconclusive for that history", h.tgt, mode, len(done))
+		r.Note("porcupine gave up (timeout) on a %s/%s history of %d operations and the completion order is no witness: inconclusive for that history", h.tgt, mode, len(done))
 	}
 
 	// statistics, non-triviality, interleaving signature
@@ -961,13 +1008,16 @@ func (h *c29Hist) check(tg c29Target, mode string, st *c29Stats, aborted bool) {
 		r.Event("histories_with_overlapping_ops", 1)
 	}
 	r.EvalHash(overlap > 0 && waitedOK > 0 && !aborted, sig)
-	if len(done) >= 12 && overlap > 0 && waitedOK > 0 {
+	st.mu.Lock()
+	doSample := len(done) >= 12 && len(done) <= 45 && overlap > 3 && waitedOK > 0 && !st.sampled[h.tgt+mode]
+	if doSample {
+		st.sampled[h.tgt+mode] = true
+	}
+	st.mu.Unlock()
+	if doSample {
 		var s []string
 		for _, rec := range done {
 			s = append(s, rec.String())
-		}
-		if len(s) > 40 {
-			s = append(s[:40], "…")
 		}
 		r.Sample(map[string]any{"target": h.tgt, "mode": mode, "history_by_call_stamp": s})
 	}
@@ -1027,7 +1077,7 @@ func c29GateScripts(rng *rand.Rand) [][]c29Step {
 }
 
 func c29QueueScripts(rng *rand.Rand) [][]c29Step {
-	nworkers := 2 + rng.IntN(15)
+	nworkers := 2 + rng.IntN(9)
 	if rng.IntN(3) == 0 {
 		nworkers = 2 + rng.IntN(3)
 	}
@@ -1089,7 +1139,7 @@ func TestVerif_C29(t *testing.T) {
 	r.Assume("linearizability decided by porcupine v1.3.0; stamps from one atomic counter, taken by the calling goroutine right before the call and right after the return")
 	r.Assume("internal/gate.Gate is driven through its exported API from package quic (no token-channel inspection for that target)")
 
-	st := &c29Stats{interleavings: map[uint64]struct{}{}}
+	st := &c29Stats{interleavings: map[uint64]struct{}{}, sampled: map[string]bool{}}
 	violated := map[string]bool{} // target -> bubble phase reported a stuck operation
 
 	type target struct {
@@ -1114,8 +1164,8 @@ func TestVerif_C29(t *testing.T) {
 		return x
 	}
 
-	nBubble := r.N(500, 12000)
-	nPlain := r.N(350, 8000)
+	nBubble := r.N(400, 12000)
+	nPlain := r.N(300, 8000)
 	for _, tg := range targets {
 		r.Cases("bubble-"+tg.name, nBubble, func(c *verifrt.Case) {
 			scripts := tg.gen(c.Rng)
